@@ -35,7 +35,9 @@ ASSUMPTIONS = [
     "user definitions of __getattr__/__setattr__/__delattr__/__deepcopy__ are documented as unsupported and not enumerated",
     "a lazily bootstrapped class may keep a __new__ entry; __annotations__ may be created when absent",
 ]
-OCCUPANTS = ["function", "staticmethod", "classmethod", "property", "value"]
+OCCUPANTS = ["function", "staticmethod", "classmethod", "property", "value", "value_none", "value_zero", "value_empty"]
+FALSY_VALUES = {"value_none": None, "value_zero": 0, "value_empty": ()}
+MODES = ["annotations", "attrs", "attrs_typed", "attrs_skip", "mixed_typed_exclusive", "mixed_typed_skip_empty", "mixed_typed_skip_one", "mixed_attrs_exclusive", "mixed_attrs_skip_empty"]
 POOL = [("x", "int", None), ("label", "str", None), ("nums", "List[int]", "num"), ("names", "List[str]", "name"), ("weights", "Dict[str, int]", "weight"), ("flags", "Set[str]", "flag"), ("leaf", "Leaf", None)]
 ALWAYS = {"update", "transform", "reset", "__spec_class_init__", "__spec_class_repr__", "__spec_class_eq__", "__getattr__", "__setattr__", "__delattr__", "__deepcopy__", "__spec_class__", "__dataclass_fields__"}
 TOLERATED = {"__new__", "__annotations__"}
@@ -43,7 +45,7 @@ TOLERATED = {"__new__", "__annotations__"}
 
 def GATES(tier):
     return [("decorations_judged", 300), ("occupied_variants", 200), ("names_identity_checked", 2000), ("user_member_behaviour_checked", 200), ("private_cases", 2), ("collision_cases", 3),
-            ("mode:annotations", 20), ("mode:attrs", 10), ("mode:attrs_typed", 10), ("mode:attrs_skip", 10), ("subclass_cases", 10), ("super_delegation_cases", 4)] + [(f"occupant:{o}", 20) for o in OCCUPANTS]
+            ("mode:annotations", 10), ("mode:attrs", 10), ("mode:attrs_typed", 10), ("mode:attrs_skip", 10), ("mode:mixed_typed_skip_empty", 5), ("mode:mixed_typed_exclusive", 5), ("mode:mixed_attrs_skip_empty", 5), ("subclass_cases", 10), ("super_delegation_cases", 4)] + [(f"occupant:{o}", 20) for o in OCCUPANTS]
 
 
 def helper_names(attrs):
@@ -71,6 +73,8 @@ def occupant_src(name, kind):
         return f"    @classmethod\n    def {name}(cls, *a, **k):\n        return 'user:{name}'\n"
     if kind == "property":
         return f"    @property\n    def {name}(self):\n        return 'user:{name}'\n"
+    if kind in FALSY_VALUES:  # a plain value that happens to be falsy still occupies the name
+        return f"    {name} = {FALSY_VALUES[kind]!r}\n"
     return f"    {name} = 'user-value:{name}'\n"
 
 
@@ -93,10 +97,12 @@ def build_case(rng, mode, chosen, switches, lazy, subclass, occupied=None, occup
     deco = {"bootstrap": not lazy}
     deco.update({k: v for k, v in switches.items() if v is False})
     attr_fields = set()
+    combined = mode.startswith("mixed_")  # annotations in the body AND attrs / attrs_typed in the decorator
+    n_ann = max(1, len(chosen) // 2) if combined else 0
     for i, (n, ann, sing) in enumerate(chosen):
         style = rng.choice(["plain", "default", "attr", "field"]) if mode != "attrs" else "none"
         default = {"int": "1", "str": "'s'", "List[int]": "[1]", "List[str]": "['a']", "Dict[str, int]": "{'a': 1}", "Set[str]": "{'a'}", "Leaf": "Leaf()"}[ann]
-        if mode in ("annotations", "attrs_skip"):
+        if mode in ("annotations", "attrs_skip") or (combined and i < n_ann):
             if style == "plain":
                 body.append(f"    {n}: {ann}")
             elif style == "default":
@@ -108,10 +114,28 @@ def build_case(rng, mode, chosen, switches, lazy, subclass, occupied=None, occup
                 body.append(f"    {n}: {ann} = field(default_factory=lambda: {default})")
                 attr_fields.add(n)
             managed.append((n, sing))
-        elif mode == "attrs":
+        elif mode == "attrs" or (combined and "_attrs_" in mode):
             managed.append((n, None))  # typed Any: no element helpers
         else:  # attrs_typed
             managed.append((n, sing))
+    if combined:
+        # documented: attrs / attrs_typed *replace* the annotation scan, unless attrs_skip is passed (possibly empty),
+        # which makes them incremental on top of the annotated attributes
+        rest = chosen[n_ann:]
+        if "_attrs_" in mode:
+            deco["attrs"] = [n for n, _a, _s in rest]
+        else:
+            deco["attrs_typed"] = "{" + ", ".join(f"{n!r}: {ann}" for n, ann, _s in rest) + "}"
+        annotated = [c[0] for c in chosen[:n_ann]]
+        if mode.endswith("_exclusive"):
+            managed = [m for m in managed if m[0] not in annotated]
+            attr_fields -= set(annotated)
+        elif mode.endswith("_skip_empty"):
+            deco["attrs_skip"] = rng.choice(["[]", "()", "set()"])
+        else:  # _skip_one
+            deco["attrs_skip"] = repr([annotated[0]])
+            managed = [m for m in managed if m[0] != annotated[0]]
+            attr_fields.discard(annotated[0])
     if mode == "attrs":
         deco["attrs"] = [n for n, _a, _s in chosen]
     elif mode == "attrs_typed":
@@ -130,7 +154,7 @@ def build_case(rng, mode, chosen, switches, lazy, subclass, occupied=None, occup
         src += "\n@spec_class(bootstrap=True)\nclass Base:\n    base_attr: int = 0\n    base_items: List[int] = []\n"
         parent = "(Base)"
     src += f"\nclass T{parent}:\n" + "\n".join(body) + "\n"
-    deco_src = ", ".join(f"{k}={v if k == 'attrs_typed' else repr(v)}" for k, v in deco.items())
+    deco_src = ", ".join(f"{k}={v if k == 'attrs_typed' or (combined and k == 'attrs_skip') else repr(v)}" for k, v in deco.items())
     expected = set(ALWAYS) | set(helper_names(managed))
     for d, sw in (("__init__", "init"), ("__repr__", "repr"), ("__eq__", "eq")):
         if switches.get(sw, True):
@@ -203,6 +227,8 @@ def judge_case(ctx, src, deco_src, model, feats, case):
                 ok = getattr(T, occ)() == f"user:{occ}" and getattr(inst, occ)() == f"user:{occ}"
             elif kind == "property":
                 ok = getattr(inst, occ) == f"user:{occ}"
+            elif kind in FALSY_VALUES:
+                ok = getattr(T, occ) is FALSY_VALUES[kind] or getattr(T, occ) == FALSY_VALUES[kind] and type(getattr(T, occ)) is type(FALSY_VALUES[kind])
             else:
                 ok = getattr(T, occ) == f"user-value:{occ}"
         except Exception as e:
@@ -426,7 +452,7 @@ def run(ctx, params):
     if params.get("directed"):
         return directed_cases(ctx)
     for ci in range(params["classes"]):
-        mode = ["annotations", "attrs", "attrs_typed", "attrs_skip"][ci % 4]
+        mode = MODES[(ci + (params.get("shard") or 0)) % len(MODES)]
         chosen = rng.sample(POOL, rng.randint(2, 4))
         if mode == "attrs":
             chosen = [c for c in chosen if c[0] != "leaf"] or chosen
@@ -460,5 +486,5 @@ def run(ctx, params):
 
 def plan(tier, seed):
     if tier == "quick":
-        return [{"directed": True}] + [{"shard": i, "classes": 8, "names_per_class": 6} for i in range(15)]
+        return [{"directed": True}] + [{"shard": i, "classes": 12, "names_per_class": 6} for i in range(15)]
     return [{"directed": True}] + [{"shard": i, "classes": 60, "names_per_class": 0} for i in range(31)]
